@@ -201,9 +201,12 @@ package tlog
 //@   pure
 //@   trusted "tile coordinate arithmetic (shifts); abstracted as an uninterpreted pure function"
 //@   props C10
+//@ # tileParent: only the level bookkeeping is specified (the k'th parent is k levels up or the zero Tile);
+//@ # the coordinate arithmetic (shifts) stays abstract
 //@ func tileParent
 //@   pure
-//@   trusted "tile coordinate arithmetic (shifts); abstracted as an uninterpreted pure function"
+//@   mathints "level and shift arithmetic on small tile coordinates; only the level bookkeeping is specified"
+//@   ensures (result.H == 0 && result.L == 0 && result.N == 0 && result.W == 0) || (result.L == t.L + k && result.H == t.H)
 //@   props C10
 //@ func StoredHashIndex
 //@   pure
@@ -264,6 +267,11 @@ package tlog
 //@     len(indexTileOrder) == len(indexes)
 //@     && (forall i2 int :: 0 <= i2 && i2 < len(indexes) ==> 0 <= indexTileOrder[i2] && indexTileOrder[i2] < len(tiles))
 
+//@ # tileOrder is the inverse of tiles: every tile is requested once, and the slot tileOrder names for it is the one
+//@ # that gets authenticated and from which hashes are extracted
+//@ spec macro INJ(tiles []Tile, tileOrder map[Tile]int) bool =
+//@     forall j int {tiles[j]} :: 0 <= j && j < len(tiles) ==> has(tileOrder, tiles[j]) && tileOrder[tiles[j]] == j
+
 //@ func Tile.Path
 //@   pure
 //@   trusted "string formatting of tile coordinates (fmt); used only in error messages here"
@@ -276,23 +284,32 @@ package tlog
 //@   # every tile handed to SaveTiles was planned for the tree hash (authenticated by the recomputed root)
 //@   # or compared with its parent's entry (authenticated through an already authenticated parent)
 //@   call TileReader.SaveTiles requires [C10, C01] coverage: forall j int {tiles[j]} :: 0 <= j && j < len(tiles) ==> j < NS || CHECKED(r.tree.N, tiles, data, tileOrder, j)
+//@   call TileReader.SaveTiles requires [C10, C01] exact_size: len(data) == len(tiles) && (forall j int {tiles[j]} :: 0 <= j && j < len(tiles) ==> len(data[j]) == tiles[j].W * HashSize)
+//@   call TileReader.SaveTiles requires [C10, C01] requested_once: INJ(tiles, tileOrder)
 //@   loop 0:
 //@     invariant 0 - 1 <= @idx && @idx < len(stx) && len(stxTileOrder) == len(stx) && len(stx) >= 1
 //@     invariant len(tiles) <= @idx + 1 && (@idx >= 0 ==> len(tiles) >= 1)
 //@     invariant forall i2 int :: 0 <= i2 && i2 <= @idx ==> 0 <= stxTileOrder[i2] && stxTileOrder[i2] < len(tiles)
 //@     invariant forall p Tile :: has(tileOrder, p) ==> 0 <= tileOrder[p] && tileOrder[p] < len(tiles)
+//@     invariant INJ(tiles, tileOrder)
 //@   loop 1:
 //@     invariant 0 - 1 <= @idx && @idx < len(indexes)
 //@     invariant PLAN(stx, stxTileOrder, tiles, tileOrder, NS) && IPLAN(indexes, indexTileOrder, tiles)
+//@     invariant INJ(tiles, tileOrder)
 //@   loop 2:
 //@     invariant 0 <= k && 0 <= i && i < len(indexes)
 //@     invariant PLAN(stx, stxTileOrder, tiles, tileOrder, NS) && IPLAN(indexes, indexTileOrder, tiles)
+//@     invariant INJ(tiles, tileOrder)
+//@     invariant forall k2 int :: 0 <= k2 && k2 < k ==> !has(tileOrder, tileParent(tile, k2, r.tree.N))
 //@   loop 3:
 //@     invariant 0 - 1 <= k && 0 <= i && i < len(indexes)
 //@     invariant PLAN(stx, stxTileOrder, tiles, tileOrder, NS) && IPLAN(indexes, indexTileOrder, tiles)
+//@     invariant INJ(tiles, tileOrder)
+//@     invariant forall k2 int :: 0 <= k2 && k2 <= k ==> !has(tileOrder, tileParent(tile, k2, r.tree.N))
 //@     decreases k + 1
 //@   loop 4:
 //@     invariant 0 - 1 <= @idx && @idx < len(tiles)
+//@     invariant forall j int {tiles[j]} :: 0 <= j && j <= @idx ==> len(data[j]) == tiles[j].W * HashSize
 //@     decreases len(tiles) - @idx
 //@   loop 5:
 //@     invariant 0 - 1 <= i && i <= len(stx) - 2
